@@ -106,7 +106,13 @@ def gen_world(rng, nprod=None, spaces=None):
     for name in names:
         if rng.random() < 0.9:
             current[name] = rng.choice(sorted(prods[name]))
-    root = "stack dir" if (spaces if spaces is not None else rng.random() < 0.25) else "stack"
+    if spaces is not None:
+        root = "stack dir" if spaces else "stack"
+    else:
+        # one draw, as before: a blank in the stack path one time in four, two blanks in a row some of those times
+        # (utils.encodePath / decodePath must take the path through SETUP_<P> unchanged)
+        r = rng.random()
+        root = "stack  dir" if r < 0.08 else "stack dir" if r < 0.25 else "stack"
     # some products are declared under the fall-back flavor (all versions of such a product)
     generic = sorted(n for n in names if rng.random() < 0.5) if rng.random() < 0.3 else []
     return {"root": root, "products": prods, "current": current, "generic": generic}
@@ -208,7 +214,7 @@ def line_infos(actions, e):
     return out
 
 
-def install_decision_spy(log, names=None):
+def install_decision_spy(log, names=None, holder=None):
     """record, for every forward call of Eups.setup in call order, the version of the product it decided on
     (and, in names, the product name it was asked for)"""
     import eups
@@ -219,8 +225,8 @@ def install_decision_spy(log, names=None):
     orig_get = P.Product.getTable
 
     def setup(self, productName, versionName=None, fwd=True, *a, **k):
-        if len(a) > 0:
-            pass
+        if not stack and holder is not None:
+            holder["eups"] = self
         frame = {"fwd": fwd, "idx": None, "seen": False}
         if fwd:
             frame["idx"] = len(log)
@@ -240,6 +246,45 @@ def install_decision_spy(log, names=None):
         return orig_get(self, *a, **k)
     E.setup = setup
     P.Product.getTable = getTable
+
+
+class _NoEups(object):
+    aliases, oldAliases = {}, {}
+
+
+def cli_args(rq):
+    args = ["--nolocks", "-q"]
+    if rq.get("just"):
+        args.append("--just")
+    if not rq.get("fwd", True):
+        args.append("--unsetup")
+    if rq.get("keep"):
+        args.append("--keep")
+    if rq.get("max_depth") is not None:
+        args += ["--max-depth", str(rq["max_depth"])]
+    args.append(rq["name"])
+    if rq.get("version"):
+        args.append(rq["version"])
+    return args
+
+
+def run_cli(rq, holder):
+    import contextlib
+    import io
+    import eups.setupcmd
+    holder.pop("eups", None)
+    out, err = io.StringIO(), io.StringIO()
+    try:
+        with contextlib.redirect_stdout(out), contextlib.redirect_stderr(err):
+            status = eups.setupcmd.EupsSetup(args=cli_args(rq), toolname="eups_setup").run()
+        text = out.getvalue().strip()
+        ok = status == 0 and text != "false"
+        outcome = "ok" if ok else "fail"
+    except SystemExit as ex:
+        ok, outcome = False, "fail"
+    except Exception as ex:  # noqa
+        ok, outcome = False, "raise:" + type(ex).__name__
+    return ok, outcome, holder.get("eups") or _NoEups()
 
 
 def run_scenario(world, requests, env0):
@@ -269,8 +314,8 @@ def run_scenario(world, requests, env0):
                 acts = tbl.actions(p.flavor or FLAVOR, setupType=e.setupType) if tbl else []
                 parsed["%s %s" % (name, v)] = {"dir": p.dir, "flavor": p.flavor, "actions": model_actions(acts),
                                                "lines": line_infos(acts, e), "tags": [str(t) for t in p.tags]}
-        log, names = [], []
-        install_decision_spy(log, names)
+        log, names, holder = [], [], {}
+        install_decision_spy(log, names, holder)
         records = []
         for rq in requests:
             sys.modules["eups.db.Database"]._databases.clear()
@@ -284,14 +329,21 @@ def run_scenario(world, requests, env0):
                 kw["keep"] = True
             if rq.get("max_depth") is not None:
                 kw["max_depth"] = rq["max_depth"]
-            e = eups.Eups(quiet=1, **kw)
-            e.selectVRO(rq.get("tag"), None, rq.get("version"), None)
-            try:
-                ok, version, reason = e.setup(rq["name"], rq.get("version"), fwd=rq.get("fwd", True),
-                                              noRecursion=bool(rq.get("just")))
-                outcome = "ok" if ok else "fail"
-            except Exception as ex:  # noqa
-                ok, outcome = False, "raise:" + type(ex).__name__
+            if rq.get("cli"):
+                # the request as the shell function hands it to eups_setup: setupcmd.EupsSetup translates the options
+                # (--just is --max-depth 0, whether setting up or unsetting up), builds the Eups object and calls
+                # eups.setup (app.py); the environment it computed is os.environ afterwards, the printed text is what
+                # the shell would source (false for a failure)
+                ok, outcome, e = run_cli(rq, holder)
+            else:
+                e = eups.Eups(quiet=1, **kw)
+                e.selectVRO(rq.get("tag"), None, rq.get("version"), None)
+                try:
+                    ok, version, reason = e.setup(rq["name"], rq.get("version"), fwd=rq.get("fwd", True),
+                                                  noRecursion=bool(rq.get("just")))
+                    outcome = "ok" if ok else "fail"
+                except Exception as ex:  # noqa
+                    ok, outcome = False, "raise:" + type(ex).__name__
             after = dict(os.environ)
             rec = {"request": rq, "before": before, "after": after if ok else before,
                    "raw_after": after, "aliases": dict(e.aliases), "old_aliases": sorted(e.oldAliases), "ok": bool(ok),
@@ -326,14 +378,24 @@ def flavors_field(res):
     return "+".join(out)
 
 
+def model_opts(rq):
+    """(max_depth, just) as the model is given them.  A request made through the command line (cli) reaches Eups with
+    what setupcmd.EupsSetup.execute makes of its options: --just becomes max_depth = 0 (for setup and for unsetup
+    alike) and noRecursion stays off"""
+    md, just = rq.get("max_depth"), bool(rq.get("just"))
+    if rq.get("cli") and just:
+        md, just = 0, False
+    return md, just
+
+
 def model_line(world, res, rec, fuel=60):
     rq = rec["request"]
-    md = rq.get("max_depth")
+    md, just = model_opts(rq)
     cfg = "%s,%s,%s,%s,%s" % (enc(FLAVOR), enc(res["stack"]), "-" if md is None or md < 0 else str(md),
                               "1" if rq.get("keep") else "0", flavors_field(res))
     ds = ",".join("!" if d is None else enc(d) for d in rec["decisions"])
     return "\t".join(["req", world_field(res), cfg, common.enc_env(rec["before"]), "", ds, enc(rq["name"]),
-                      "1" if rq.get("fwd", True) else "0", "1" if rq.get("just") else "0", str(fuel)])
+                      "1" if rq.get("fwd", True) else "0", "1" if just else "0", str(fuel)])
 
 
 FLAVORS = [FLAVOR, "generic"]           # utils.Flavor().getFallbackFlavors("Linux64", includeMe=True)
@@ -348,7 +410,7 @@ def model_line_full(world, res, rec, fuel=60):
     """the same request for the composed model request_full (coq/Model/SetupFull.v): world, per-line request
     information, chain files, environment before - and NO decisions: the model resolves every version itself"""
     rq = rec["request"]
-    md = rq.get("max_depth")
+    md, just = model_opts(rq)
     cfg = "%s,%s,%s,%s,%s" % (enc(FLAVOR), enc(res["stack"]), "-" if md is None or md < 0 else str(md),
                               "1" if rq.get("keep") else "0", flavors_field(res))
     lines, tags = [], []
@@ -360,7 +422,7 @@ def model_line_full(world, res, rec, fuel=60):
     version = rq.get("version")
     return "\t".join(["full", world_field(res), "|".join(lines), ",".join(tags), cfg, common.enc_env(rec["before"]), "",
                       enc(rq["name"]), "-" if version is None else "=" + enc(version),
-                      "1" if rq.get("fwd", True) else "0", "1" if rq.get("just") else "0", str(fuel),
+                      "1" if rq.get("fwd", True) else "0", "1" if just else "0", str(fuel),
                       ",".join(enc(f) for f in FLAVORS), ""])
 
 
@@ -646,12 +708,12 @@ def model_line_text(world, res, rec, fuel=60):
     """the request of model_line for the model that starts from the table texts (op text of build/c01/run):
     table_actions of C11, Table.expandEupsVariables, the command kinds and processArgs are all on the model side"""
     rq = rec["request"]
-    md = rq.get("max_depth")
+    md, just = model_opts(rq)
     cfg = "%s,%s,%s,%s," % (enc(FLAVOR), enc(res["stack"]), "-" if md is None or md < 0 else str(md),
                             "1" if rq.get("keep") else "0")
     ds = ",".join("!" if d is None else enc(d) for d in rec["decisions"])
     return "\t".join(["text", tworld_field(world, res), cfg, common.enc_env(rec["before"]), "", ds, enc(rq["name"]),
-                      "1" if rq.get("fwd", True) else "0", "1" if rq.get("just") else "0", str(fuel),
+                      "1" if rq.get("fwd", True) else "0", "1" if just else "0", str(fuel),
                       ",".join(enc(t) for t in SETUP_TYPES), ",".join(enc(w) for w in IMPLICIT_WORDS)])
 
 
